@@ -119,7 +119,14 @@ def c_get_prob(ctx, args):
     return None
 
 
-CHECKS = {'expect_corr': c_expect_corr, 'expect_dense': c_expect_dense, 'expect_poly': c_expect_poly, 'overlap': c_overlap, 'get_prob': c_get_prob}
+def c_history(ctx, args):
+    """a query on ONE reused object, after in-place (often sign-only) updates, equals the same query on a fresh equal object"""
+    from vlib import history
+    kind, n, seed, steps, which = args
+    return history.reused_object_history(ctx, kind, n, seed, steps, which)
+
+
+CHECKS = {'expect_corr': c_expect_corr, 'expect_dense': c_expect_dense, 'expect_poly': c_expect_poly, 'overlap': c_overlap, 'get_prob': c_get_prob, 'history': c_history}
 
 
 def run(ctx):
@@ -177,3 +184,6 @@ def run(ctx):
         do(ctx, 'overlap', [be, t, u], nontrivial=('o', it))
         if t[1] == 0 and n <= 4:
             do(ctx, 'get_prob', [be, t], nontrivial=('g', it))
+    # histories on one reused object: lazily kept results must follow every in-place update
+    for _ in range(int(40 * B)):
+        do(ctx, 'history', ['state', rng.randint(1, 4), rng.randrange(10 ** 6), rng.randint(4, 12), ['expect', 'get_prob']], nontrivial=('h', 'state', ctx.res.evaluations))
